@@ -13,6 +13,8 @@ CONSTANTS
   MaxTx = 1
   SupplyCap = 8
   DataVals = {7}
+  ConsArgs <- ConsNone
+  ConArgs <- ConsNone
   InitLedgers <- InitN
   FailOdds = 4
   EndOdds = 3
